@@ -161,11 +161,29 @@ where
                         Some(ast::PatternElement::TextElement { value })
                     }
                 })
-                .collect();
-            return Ok(Some(ast::Pattern { elements }));
+                .collect::<Vec<_>>();
+            return Ok(Self::drop_empty_tail(elements));
         }
 
         Ok(None)
+    }
+
+    /// The last text element has been trimmed. If nothing is left of it (its only content
+    /// was a lone CR), drop it and trim the text in front of it, as trailing whitespace of
+    /// the pattern.
+    fn drop_empty_tail(mut elements: Vec<ast::PatternElement<S>>) -> Option<ast::Pattern<S>> {
+        while let Some(ast::PatternElement::TextElement { value }) = elements.last_mut() {
+            value.trim();
+            if !value.as_ref().is_empty() {
+                break;
+            }
+            elements.pop();
+        }
+        if elements.is_empty() {
+            None
+        } else {
+            Some(ast::Pattern { elements })
+        }
     }
 
     fn get_text_slice(
@@ -182,8 +200,7 @@ where
         };
         let end = memchr::memchr3(b'\n', b'{', b'}', rest);
         let element_type = |text: &[u8]| {
-            // a lone CR is trimmed like a space at the end of a pattern, so it cannot make a line non-blank
-            if text.iter().any(|&c| c != b' ' && c != b'\r') {
+            if text.iter().any(|&c| c != b' ') {
                 TextElementType::NonBlank
             } else {
                 TextElementType::Blank
